@@ -122,13 +122,18 @@ func genC18(r *rand.Rand, t *Trace, thorough bool) {
 		c := NewCase(1802).N(mz).Vecs(qs).Vec(tg).Vec(out).Vec(calc)
 		t.Emit(c, "batch."+string(metrics[mz]))
 	}
-	for it := 0; it < 120*mult; it++ {
+	for it := 0; it < 240*mult; it++ {
 		mz := r.Intn(3)
 		if it%2 == 0 {
 			mz = 2
 		}
 		d, _ := comet.NewDistance(metrics[mz])
 		dim := dims(r)
+		if it%3 == 0 {
+			// long vectors: float32 accumulation makes the one-pass normalisation drift, which is where
+			// "touch-up" code paths (re-normalising, and whatever they write to) become reachable
+			dim = 96 + r.Intn(417)
+		}
 		v := rndVecMag(r, dim)
 		st := "preprocess.nonzero"
 		switch r.Intn(8) {
